@@ -67,7 +67,7 @@ def make_args_unique(a: ast.Lambda) -> ast.Lambda:
 
             body = self.visit(node.body)
 
-            for arg in node.args.args:
+            for _ in mapping:
                 self._arg_stack.pop()
 
             new_args = copy.copy(node.args)
@@ -120,6 +120,45 @@ class FuncADLIndexError(Exception):
         Exception.__init__(self, msg)
 
 
+def _binds_by_name(call_node: ast.Call) -> bool:
+    """Can the call of this lambda be replaced by the lambda's body with its parameters
+    substituted? Only when python binds each argument to one named parameter: no `*args`,
+    `**kwargs`, positional-only or keyword-only parameters, no starred arguments, and every
+    parameter is given once or has a default.
+    """
+    assert isinstance(call_node.func, ast.Lambda)
+    a = call_node.func.args
+    if a.vararg or a.kwarg or len(a.posonlyargs) > 0 or len(a.kwonlyargs) > 0:
+        return False
+    if any(isinstance(arg, ast.Starred) for arg in call_node.args):
+        return False
+    names = [p.arg for p in a.args]
+    if len(call_node.args) > len(names):
+        return False
+    given = set(names[: len(call_node.args)])
+    for k in call_node.keywords:
+        if k.arg is None or k.arg not in names or k.arg in given:
+            return False
+        given.add(k.arg)
+    have_default = set(names[len(names) - len(a.defaults) :]) if len(a.defaults) > 0 else set()
+    return all(n in given or n in have_default for n in names)
+
+
+def _is_operator_call(node: ast.Call, args: List[ast.AST]) -> bool:
+    "`Op(seq, lambda ...)`: the only shape of a Select/SelectMany/Where call we know how to fuse"
+    return len(args) == 2 and len(node.keywords) == 0 and isinstance(args[1], ast.Lambda)
+
+
+def _is_fusable(node: ast.AST, func_name: str) -> bool:
+    "A call of the operator `func_name` in the shape `Op(seq, lambda ...)`"
+    return is_call_of(node, func_name) and _is_operator_call(node, node.args)  # type: ignore
+
+
+def _is_first_of(node: ast.AST) -> bool:
+    "`First(seq)`"
+    return is_call_of(node, "First") and len(node.args) == 1 and len(node.keywords) == 0  # type: ignore
+
+
 def _is_method_call_on_first(node: ast.Call):
     """
     Determine if this is a call like First(seq).method(args).
@@ -127,7 +166,7 @@ def _is_method_call_on_first(node: ast.Call):
     if not isinstance(node.func, ast.Attribute):
         return False
 
-    if not is_call_of(node.func.value, "First"):
+    if not _is_first_of(node.func.value):
         return False
 
     return True
@@ -233,14 +272,17 @@ class simplify_chained_calls(FuncADLNodeTransformer):
         => Select(Where(seq, x: f(x), y: g(y))
         is not altered.
         """
+        if not _is_operator_call(node, args):
+            # e.g. the lambda handed over by keyword: nothing we can fuse, but look inside
+            return self.generic_visit(node)
         source = args[0]
         transform = args[1]
         assert isinstance(transform, ast.Lambda)
 
         parent_select = self.visit(source)
-        if is_call_of(parent_select, "Select"):
+        if _is_fusable(parent_select, "Select"):
             return self._fuse(self.visit_Select_of_Select, parent_select, transform)
-        elif is_call_of(parent_select, "SelectMany"):
+        elif _is_fusable(parent_select, "SelectMany"):
             return self._fuse(self.visit_Select_of_SelectMany, parent_select, transform)
         else:
             selection = self.visit(transform)
@@ -310,12 +352,15 @@ class simplify_chained_calls(FuncADLNodeTransformer):
         Transformation #3:
         seq.Where(x: f(x)).SelectMany(y: g(y))
         """
+        if not _is_operator_call(node, args):
+            # e.g. the lambda handed over by keyword: nothing we can fuse, but look inside
+            return self.generic_visit(node)
         selection = args[1]
         assert isinstance(selection, ast.Lambda)
         parent_select = self.visit(args[0])
-        if is_call_of(parent_select, "SelectMany"):
+        if _is_fusable(parent_select, "SelectMany"):
             return self._fuse(self.visit_SelectMany_of_SelectMany, parent_select, selection)
-        elif is_call_of(parent_select, "Select"):
+        elif _is_fusable(parent_select, "Select"):
             return self._fuse(self.visit_SelectMany_of_Select, parent_select, selection)
         else:
             return function_call("SelectMany", [parent_select, self.visit(selection)])
@@ -409,16 +454,19 @@ class simplify_chained_calls(FuncADLNodeTransformer):
         seq.SelectMany(x: f(x).Where(y: g(y)))
         => SelectMany(seq, x: Where(f(x), g(y)))
         """
+        if not _is_operator_call(node, args):
+            # e.g. the lambda handed over by keyword: nothing we can fuse, but look inside
+            return self.generic_visit(node)
         source = args[0]
         filter = args[1]
         assert isinstance(filter, ast.Lambda)
 
         parent_where = self.visit(source)
-        if is_call_of(parent_where, "Where"):
+        if _is_fusable(parent_where, "Where"):
             return self._fuse(self.visit_Where_of_Where, parent_where, filter)
-        elif is_call_of(parent_where, "Select"):
+        elif _is_fusable(parent_where, "Select"):
             return self._fuse(self.visit_Where_of_Select, parent_where, filter)
-        elif is_call_of(parent_where, "SelectMany"):
+        elif _is_fusable(parent_where, "SelectMany"):
             return self._fuse(self.visit_Where_of_SelectMany, parent_where, filter)
         else:
             f = self.visit(filter)
@@ -467,7 +515,7 @@ class simplify_chained_calls(FuncADLNodeTransformer):
 
         Also, if this is a First() call, then move the call inside it.
         """
-        if type(call_node.func) is ast.Lambda:
+        if type(call_node.func) is ast.Lambda and _binds_by_name(call_node):
             arg_asts = [self.visit(a) for a in call_node.args]
             kw_asts = [(k.arg, self.visit(k.value)) for k in call_node.keywords]
             # Give the parameters fresh names first: parts of the result get visited more than
@@ -612,6 +660,11 @@ class simplify_chained_calls(FuncADLNodeTransformer):
             # Only a constant selector can be resolved against a literal. Anything else
             # (a variable, a slice, -1 written as a unary minus, ...) is left as it is.
             is_index = type(s.value) is int
+            if isinstance(v, (ast.Tuple, ast.List)) and any(
+                isinstance(e, ast.Starred) for e in v.elts
+            ):
+                # `(*a, b)[1]`: where an element sits is not known here
+                is_index = False
             if type(v) is ast.Tuple and is_index:
                 return self.visit_Subscript_Tuple(v, s)
             if type(v) is ast.List and is_index:
@@ -619,7 +672,7 @@ class simplify_chained_calls(FuncADLNodeTransformer):
             if type(v) is ast.Dict and isinstance(s.value, (str, int)):
                 return self.visit_Subscript_Dict(v, s)
 
-        if is_call_of(v, "First"):
+        if _is_first_of(v):
             return self.visit_Subscript_Of_First(v.args[0], s)
 
         # Nothing interesting, so do the normal thing several levels down.
@@ -653,7 +706,7 @@ class simplify_chained_calls(FuncADLNodeTransformer):
         Otherwise, we need to make sure to make a new version of the Attribute so it does
         not get reused'
         """
-        if is_call_of(node.value, "First"):
+        if _is_first_of(node.value):
             return self.visit_Attribute_Of_First(node.value.args[0], node.attr)  # type: ignore
 
         visited_value = self.visit(node.value)
